@@ -22,7 +22,7 @@ import (
 func init() {
 	Register("C21", &Info{
 		Run:   runC21,
-		Quick: 2500, Thor: 250000,
+		Quick: 2500, Thor: 300000,
 		Rule: "a world = one fingerprint advertising compress_certificate (parrots by stratum, generated specs with each algorithm set) against the reference server (optionally requesting a client certificate, so that a CertificateRequest precedes it in the transcript), which sends its Certificate message as CompressedCertificate with an advertised algorithm (brotli, zlib, zstd) encoded by the real encoders at a drawn level, with a drawn flush/block structure (single block, flush every n bytes, stored blocks, several concatenated zstd frames) and a drawn chain (small ECDSA leaf, RSA leaf, a 16 kB leaf with 400 SANs) carrying a drawn OCSP staple; narrowing stratum: the hello is built, the advertised list is narrowed (or the whole extension removed), the server answers with the dropped algorithm; fault stratum: declared uncompressed_length shorter or longer than the real one, stream truncated, byte flipped (at a drawn position, or directed into the staple where the stream carries it verbatim), trailing garbage appended; oracle: a valid encoding => the handshake completes, data echoes and PeerCertificates equal the chain the server compressed; an invalid one => the client aborts (never completes with any chain) and the server sees the bad_certificate alert; non-trivial = a CompressedCertificate message was processed by the client; distinct = (fingerprint, algorithm, encoder settings, chain, fault)",
 		Assumptions: []string{"'any valid compressed encoding' is sampled through the real encoders' levels, flush points and framing; hand-crafted exotic bit streams are not generated",
 			"trailing bytes after a complete compressed stream count as a decompressed-length mismatch only when they decode to additional output (declared length shorter than the actual output)"},
@@ -31,7 +31,7 @@ func init() {
 	})
 	Register("C22", &Info{
 		Run:   runC22,
-		Quick: 7500, Thor: 250000,
+		Quick: 7500, Thor: 1000000,
 		Rule: "a world = one ALPS-capable fingerprint (parrots whose spec carries application_settings on either code point, generated specs) with a drawn Config.ApplicationSettings map (with PSK-capable parrots optionally as the resumed second connection of a history) against the reference server, which negotiates an ALPN protocol and answers with application_settings on the old (17513) or new (17613) code point with drawn server settings; client authentication requested or not (client with and without a certificate); strata: normal, server omits ALPN but sends ALPS, TLS 1.2 server that puts an application_settings extension into its ServerHello, code point different from the one the client offered; oracle: normal => handshake completes, ConnectionState.PeerApplicationSettings equals the server's bytes, the server received a client EncryptedExtensions message carrying exactly the settings configured for the negotiated protocol and verified the client Finished over a transcript including it; without ALPN or below TLS 1.3 => nothing is exposed (TLS 1.3 without ALPN: abort); non-trivial = ALPS extension in the server's EncryptedExtensions (or ServerHello); distinct = (fingerprint, code point, protocol, settings, stratum)",
 		Assumptions: []string{"'rejects application settings under TLS below 1.3' is read as 'never exposes or answers them'; an application_settings extension in a TLS 1.2 ServerHello is otherwise an unknown extension"},
 		Real:        []string{"utls client ALPS path from /repo"},
